@@ -638,7 +638,7 @@ def run_argflow(P, rep, rule="R-ARGFLOW"):
 def run_range(P, rep, rule="R-RANGE"):
     """An integer range (a..b) is materialised as the inclusive range of its two bounds; a guard comparing the
     bounds for emptiness must be strict (a > b): `>=`/`==` would drop the one-element range (a..a)."""
-    fns = [f for f in P.fns.values() if f.key == "<liquid_lib::stdlib::blocks::for_block::Range>::evaluate"]
+    fns = P.by_key("<liquid_lib::stdlib::blocks::for_block::Range>::evaluate")
     if len(fns) != 1:
         rep.anchor_missing(rule, "Range::evaluate")
         return
